@@ -12,6 +12,18 @@ use support::elems::{z_set_eq, Z};
 use support::ledger;
 use support::rng::{Fp, Rng};
 
+/// zero-sized value whose `==` never holds (the zero-sized analogue of NaN / SQL NULL)
+#[derive(Clone, Copy, Debug)]
+pub struct NeverEq;
+impl PartialEq for NeverEq {
+    fn eq(&self, _: &Self) -> bool {
+        false
+    }
+}
+/// zero-sized value that is always equal
+#[derive(Clone, Copy, Debug, PartialEq)]
+pub struct Unit;
+
 pub struct Eqc<'a> {
     pub cx: &'a mut Ctx,
     pub group: u64,
@@ -229,6 +241,43 @@ impl<'a> Eqc<'a> {
         z_set_eq(true);
         if ledger::viol_total() > 0 {
             self.cx.rep.absorb_violations("C14", &|| vec![format!("zero-sized pairs N={} M={}", N, M)]);
+        }
+    }
+
+    /// maps whose VALUE type is zero-sized: equality still goes through `V: PartialEq`
+    pub fn zst_values<const N: usize, const M: usize>(&mut self) {
+        ledger::set_ctx(self.group, 0, "map==(zero-sized values)");
+        for la in 0..=N.min(3) {
+            for lb in 0..=M.min(3) {
+                for shift in 0..2u32 {
+                    self.cx.rep.evaluations += 1;
+                    let mut a: Map<u32, NeverEq, N> = Map::new();
+                    let mut b: Map<u32, NeverEq, M> = Map::new();
+                    let mut c: Map<u32, Unit, N> = Map::new();
+                    let mut d: Map<u32, Unit, M> = Map::new();
+                    for i in 0..la as u32 {
+                        a.insert(i, NeverEq);
+                        c.insert(i, Unit);
+                    }
+                    for i in (0..lb as u32).rev() {
+                        b.insert(i + shift, NeverEq);
+                        d.insert(i + shift, Unit);
+                    }
+                    let same_keys = la == lb && (shift == 0 || la == 0);
+                    // values that are never equal: only two EMPTY maps are equal
+                    let want_never = la == 0 && lb == 0;
+                    if (a == b) != want_never || (b == a) != want_never || (a != b) == want_never {
+                        v("zero-sized-values", format!("Map<u32,NeverEq,{}> with keys 0..{} vs Map<u32,NeverEq,{}> with keys {}..{}: == is {}, but a value type whose == never holds makes only empty maps equal", N, la, M, shift, lb as u32 + shift, a == b));
+                    }
+                    if (c == d) != same_keys || (d == c) != same_keys || (c != d) == same_keys {
+                        v("zero-sized-values", format!("Map<u32,Unit,{}> with keys 0..{} vs Map<u32,Unit,{}> with keys {}..{}: == is {}, extensionally {}", N, la, M, shift, lb as u32 + shift, c == d, same_keys));
+                    }
+                    self.cx.rep.hit("zst-values");
+                }
+            }
+        }
+        if ledger::viol_total() > 0 {
+            self.cx.rep.absorb_violations("C14", &|| vec![format!("zero-sized value types N={} M={}", N, M)]);
         }
     }
 
